@@ -183,8 +183,13 @@ Fixpoint leaves (f : frame) {struct f} : list leaf :=
    so a CALL to a precompile address that has no account creates one; evermint's CreateAccount
    (x/evm/vm/state_db.go -> AccountKeeper.NewAccountWithAddress) draws the next global account number.  If the call
    or an enclosing frame fails the creation is reverted with it; otherwise the (empty) account is removed again at
-   commit, but the counter in the auth store stays advanced.  Custom precompile addresses have no account unless
-   somebody sent them coins, so: the counter moves iff some leaf reached by CALL itself is in the final mask. *)
+   commit, but the counter in the auth store stays advanced: the number is held by no account, it is skipped.  Custom
+   precompile addresses have no account unless somebody sent them coins, so: a number is skipped iff some leaf reached
+   by CALL itself is in the final mask.
+   Numbers that ARE held by an account afterwards are something else: the effect of a method that took effect (the
+   bank module creates the account of an ERC-20 transfer's recipient that had none; a module account used for the
+   first time).  They belong to [eff_of], not here; the driver tells the two apart on the store, number by number
+   (harness/static accNums), so [accnum_consumed] is compared with "a number was drawn that no account holds". *)
 Fixpoint call_leaves (f : frame) {struct f} : list nat :=
   match f with
   | Cpc op _ l => if callop_eqb op CALL then [l_id l] else []
